@@ -6,7 +6,7 @@
    the number (to_rational) or within eps of it.  Built on the proved reference arithmetic (Properties_Base.v) and
    RefineCheckProofs.same_number_sound. *)
 From Coq Require Import ZArith NArith List.
-From LP Require Import Scalar UPoly MPoly RefAlg RefineCheck AlgNumCheck.
+From LP Require Import Scalar UPoly MPoly RefAlg RefineCheck AlgNum AlgNumCheck.
 Set Warnings "-notation-overridden,-ambiguous-paths".
 From mathcomp Require Import all_ssreflect all_algebra all_real_closed.
 From mathcomp Require Import ssrZ zify.
@@ -17,6 +17,40 @@ Set Implicit Arguments.
 Unset Strict Implicit.
 Unset Printing Implicit Defensive.
 Local Open Scope ring_scope.
+
+(* ---------------------------------------------------------------- the chain-sharing operations ARE the reference ones *)
+Lemma sel_sharedE fuel r encl x y : sel_shared fuel r encl x y = rn_select fuel r encl x y.
+Proof.
+rewrite /sel_shared; elim: fuel x y => [|f IH] x y //=.
+by case: (encl x y) => l h; rewrite IH.
+Qed.
+
+Lemma add_shE fuel x y : add_sh fuel x y = rn_add fuel x y.
+Proof. by case: x => [a|p lo hi]; case: y => [b|q lo' hi']; rewrite /add_sh /rn_add ?sel_sharedE. Qed.
+
+Lemma sub_shE fuel x y : sub_sh fuel x y = rn_sub fuel x y.
+Proof. by rewrite /sub_sh add_shE. Qed.
+
+Lemma mul_shE fuel x y : mul_sh fuel x y = rn_mul fuel x y.
+Proof. by case: x => [a|p lo hi]; case: y => [b|q lo' hi']; rewrite /mul_sh /rn_mul ?sel_sharedE. Qed.
+
+Lemma div_shE fuel x y : div_sh fuel x y = rn_div fuel x y.
+Proof. by rewrite /div_sh /rn_div; case: (rn_inv fuel y) => // i; rewrite mul_shE. Qed.
+
+Lemma pow_shE fuel x n : pow_sh fuel x n = rn_pow_direct fuel x n.
+Proof. by case: n => [|[|n]] //; case: x => [a|p lo hi] //; rewrite /pow_sh /rn_pow_direct sel_sharedE. Qed.
+
+Lemma zl_eqbP (a b : seq Z) : zl_eqb a b -> a = b.
+Proof. by elim: a b => [|x a IH] [|y b] //= /andP[/Z.eqb_eq -> /IH ->]. Qed.
+
+Lemma q_eqrepP (a b : Z * Z) : q_eqrep a b -> a = b.
+Proof. by case: a => a1 a2; case: b => b1 b2 /andP[/= /Z.eqb_eq -> /Z.eqb_eq ->]. Qed.
+
+Lemma rn_eqrepP (x y : rnum) : rn_eqrep x y -> x = y.
+Proof.
+case: x => [a|p lo hi]; case: y => [b|q lo' hi'] //=; first by move/q_eqrepP ->.
+by move=> /andP[/andP[/zl_eqbP -> /q_eqrepP ->] /q_eqrepP ->].
+Qed.
 
 Section Sound.
 Variable R : rcfType.
@@ -44,28 +78,28 @@ Lemma accept_add_sound fuel x y r a b : denotes (rn_norm x) a -> denotes (rn_nor
   accept_op fuel KAdd [:: x; y] (VNum r) -> denotes (rn_norm r) (a + b).
 Proof.
 move=> dx dy /same_as_sound[z E s].
-exact: same_number_sound s (rn_add_spec dx dy E).
+exact: same_number_sound s (rn_add_spec dx dy (etrans (esym (add_shE _ _ _)) E)).
 Qed.
 
 Lemma accept_sub_sound fuel x y r a b : denotes (rn_norm x) a -> denotes (rn_norm y) b ->
   accept_op fuel KSub [:: x; y] (VNum r) -> denotes (rn_norm r) (a - b).
 Proof.
 move=> dx dy /same_as_sound[z E s].
-exact: same_number_sound s (rn_sub_spec dx dy E).
+exact: same_number_sound s (rn_sub_spec dx dy (etrans (esym (sub_shE _ _ _)) E)).
 Qed.
 
 Lemma accept_mul_sound fuel x y r a b : denotes (rn_norm x) a -> denotes (rn_norm y) b ->
   accept_op fuel KMul [:: x; y] (VNum r) -> denotes (rn_norm r) (a * b).
 Proof.
 move=> dx dy /same_as_sound[z E s].
-exact: same_number_sound s (rn_mul_spec dx dy E).
+exact: same_number_sound s (rn_mul_spec dx dy (etrans (esym (mul_shE _ _ _)) E)).
 Qed.
 
 Lemma accept_div_sound fuel x y r a b : denotes (rn_norm x) a -> denotes (rn_norm y) b ->
   accept_op fuel KDiv [:: x; y] (VNum r) -> b != 0 /\ denotes (rn_norm r) (a / b).
 Proof.
 move=> dx dy /same_as_sound[z E s].
-have [b0 dz] := rn_div_spec dx dy E; split=> //.
+have [b0 dz] := rn_div_spec dx dy (etrans (esym (div_shE _ _ _)) E); split=> //.
 exact: same_number_sound s dz.
 Qed.
 
@@ -102,7 +136,7 @@ Lemma accept_pow_sound fuel n x r a : denotes (rn_norm x) a ->
   accept_op fuel (KPow n) [:: x] (VNum r) -> denotes (rn_norm r) (a ^+ n).
 Proof.
 move=> dx /same_as_sound[z E s].
-exact: same_number_sound s (rn_pow_direct_spec dx E).
+exact: same_number_sound s (rn_pow_direct_spec dx (etrans (esym (pow_shE _ _ _)) E)).
 Qed.
 
 (* positive_root: the printed representation denotes THE non-negative n-th root of a *)
@@ -113,8 +147,8 @@ Proof.
 move=> dx; rewrite /accept_op /=.
 move=> /andP[/andP[/andP[/Nat.ltb_lt n0 val] sg]].
 have [v dv] := RefAlgFinal.rn_valid_denotes R val.
-case E: (rn_pow_direct fuel _ n) => [pw|//] /opt_isP c.
-have dw := rn_pow_direct_spec dv E.
+case E: (pow_sh fuel _ n) => [pw|//] /opt_isP c.
+have dw := rn_pow_direct_spec dv (etrans (esym (pow_shE _ _ _)) E).
 have := rn_cmp_spec dw dx c.
 rewrite /RefAlgSpec.zr /= => /esym/eqP; rewrite sgr_eq0 subr_eq0 => /eqP e.
 have v0 : 0 <= v.
@@ -208,7 +242,10 @@ Qed.
 
 Lemma accept_same_sound fuel x r a : denotes (rn_norm x) a ->
   accept_op fuel KSame [:: x] (VNum r) -> denotes (rn_norm r) a.
-Proof. by move=> dx s; exact: same_number_sound s dx. Qed.
+Proof.
+move=> dx; rewrite /accept_op => /orP[/rn_eqrepP <- //|s].
+exact: same_number_sound s dx.
+Qed.
 
 (* ---------------------------------------------------------------- ONE statement for all operations *)
 Definition result_true (op : c07_op) (vals : seq R) (res : c07_result) : Prop :=
